@@ -152,8 +152,10 @@ def _render(r):
 def cli_task(texts):
     """the real binary, the level given in every spelling the command line accepts (and not at all): same behaviour as -O0"""
     import subprocess
-    from .common import HYEONG, child_setup, run_pty
+    from .common import HYEONG, child_setup, run_pty, pty_available
     st = Stats()
+    have_pty = pty_available()
+    st.add('pty', 'available' if have_pty else 'NOT available: terminal runs left out')
     path = os.path.join(WORK, 'cli-opt-%d.hyeong' % os.getpid())
     env = dict(os.environ, HYEONG_VERIF_STEPS=str(4 * B), RUST_BACKTRACE='0')
 
@@ -176,6 +178,8 @@ def cli_task(texts):
             f.write(text)
         ref = run(['-O0'])
         for lv, opts in SPELLINGS:
+            if opts[:1] == ['PTY'] and not have_pty:
+                continue
             got = run(opts)
             st.inc('runs')
             st.inc('cases')
@@ -475,7 +479,8 @@ def run_c02(tier):
                   'renumbering_3_high_stacks': {'alphabet': S3, 'programs': len(ren3)},
                   'bailout_programs': len(bailout_family()), 'budget_programs': len(budget_family(tier)),
                   'mixed_programs': len(mixed_family()), 'labelflow_programs': len(lf), 'size_ladder_programs': len(sp), 'programs_through_the_command_line_in_every_level_spelling': len(cli),
-                  'level_spellings': [' '.join(o) or '(no flag)' for _, o in SPELLINGS], 'curated_programs': len(cur), 'curated_inputs': len(cin),
+                  'level_spellings': [' '.join(o) or '(no flag)' for _, o in SPELLINGS],
+                  'pseudo_terminal': sorted(st.sets.get('pty', ())), 'curated_programs': len(cur), 'curated_inputs': len(cin),
                   'step_budget': {'budget/mixed/curated families': B, 'other families': 400}, 'inconclusive_after_8x_budget': st.n.get('inconclusive', 0)},
         'distinct_outcomes': {'level0_endings': sorted(st.sets.get('kinds', ())),
                               'distinct_level0_outputs': len(st.sets.get('outputs', ()))},
